@@ -32,6 +32,9 @@ def gen_vals(rng, P, m, kind):
             xs = sorted((float(rng.randint(0, 9)) for _ in range(m)), reverse=True)
         elif kind == "one_rich":
             xs = sorted((rng.random() * (1000.0 if row is P[0] else 0.01) for _ in range(m)), reverse=True)
+        elif kind in ("tiny", "huge"):
+            scale = 1e-10 if kind == "tiny" else 1e6
+            xs = sorted((rng.choice([0.0, 0.3, 0.5, 1.0, rng.random()]) * scale for _ in range(m)), reverse=True)
         else:
             raise ValueError(kind)
         vals.append([xs[row[j] - 1] for j in range(m)])
@@ -74,7 +77,8 @@ class LogElicitor:
 
 def profile_of(P):
     from socialchoicekit.profile_utils import StrictCompleteProfile
-    return StrictCompleteProfile.of(np.array(P, dtype=np.int64))
+    from harness.common import relayout
+    return StrictCompleteProfile.of(relayout(np.array(P, dtype=np.int64)))
 
 
 def run_rule(rule, P, vals, k, zero=True, tie_breaker="accept", memoize=True, cache=None, integer=False):
